@@ -1,19 +1,22 @@
-package iris
+package hertz
 
-// C19 driver (observer only): drives SentinelMiddleware through the
-// admitted x fallback x handler matrix and prints one C19CASE line per case.
-//
-// iris.New() (no recover middleware) + app.Build(), then app.ServeHTTP with an
-// httptest recorder. iris' own httptest package is not used because it is an
-// asserting (httpexpect) API.
+// C19 driver (observer only): drives SentinelServerMiddleware (through a route.Engine and
+// ut.PerformRequest, as the adapter's own test does) and SentinelClientMiddleware (by calling the
+// returned client.Endpoint directly with a hand-made next endpoint) through the
+// admitted x fallback x handler matrix. Prints one C19CASE line per case.
 
 import (
+	"context"
+	"errors"
 	"net/http"
-	"net/http/httptest"
 	"strconv"
 	"testing"
 
-	"github.com/kataras/iris/v12"
+	"github.com/cloudwego/hertz/pkg/app"
+	"github.com/cloudwego/hertz/pkg/common/config"
+	"github.com/cloudwego/hertz/pkg/common/ut"
+	"github.com/cloudwego/hertz/pkg/protocol"
+	"github.com/cloudwego/hertz/pkg/route"
 )
 
 // >>> C19 COMMON BEGIN (generated from _common/c19_common.go.txt by _common/sync.sh)
@@ -336,59 +339,102 @@ func c19Name(ep string, admitted, fallback bool, handler string) string {
 
 // <<< C19 COMMON END
 
+var (
+	c19ErrHandler  = errors.New("c19 handler error")
+	c19ErrFallback = errors.New("c19 fallback error")
+)
+
 func TestVerifC19(t *testing.T) {
 	c19Setup(t)
 	c19Matrix(func(admitted, fallback bool, handler string) {
-		c19IrisCase(t, admitted, fallback, handler)
+		c19HertzServerCase(t, admitted, fallback, handler)
+	})
+	c19Matrix(func(admitted, fallback bool, handler string) {
+		c19HertzClientCase(t, admitted, fallback, handler)
 	})
 }
 
-func c19IrisCase(t *testing.T, admitted, fallback bool, handler string) {
+func c19HertzServerCase(t *testing.T, admitted, fallback bool, handler string) {
 	c := &c19Case{
-		Adapter:               "iris",
-		EntryPoint:            "SentinelMiddleware",
-		Resource:              c19Name("SentinelMiddleware", admitted, fallback, handler),
+		Adapter:               "hertz",
+		EntryPoint:            "SentinelServerMiddleware",
+		Resource:              c19Name("SentinelServerMiddleware", admitted, fallback, handler),
 		AdmittedExpected:      admitted,
 		Fallback:              fallback,
 		Handler:               handler,
 		HandlerCanReturnError: false,
-		Notes:                 "iris.New() without recover middleware, app.Use(adapter), app.Build(), app.ServeHTTP; err = handler writes status 500",
+		Notes:                 "route.NewEngine without recovery middleware, ut.PerformRequest; app.HandlerFunc has no error result: err = ctx.Error(err)+status 500",
 	}
 	c19Rules(t, c.Resource, admitted)
 
-	opts := []Option{WithResourceExtractor(func(iris.Context) string { return c.Resource })}
+	opts := []ServerOption{WithServerResourceExtractor(func(context.Context, *app.RequestContext) string { return c.Resource })}
 	if fallback {
-		opts = append(opts, WithBlockFallback(func(ctx iris.Context) {
+		opts = append(opts, WithServerBlockFallback(func(_ context.Context, ctx *app.RequestContext) {
 			c.fallbackCalled()
-			ctx.StatusCode(http.StatusTeapot)
-			_, _ = ctx.WriteString("c19 fallback")
-			ctx.StopExecution()
+			ctx.AbortWithStatus(http.StatusTeapot)
 		}))
 	}
-	app := iris.New()
-	app.Logger().SetLevel("disable")
-	app.Use(SentinelMiddleware(opts...))
-	app.Handle(http.MethodGet, "/c19", func(ctx iris.Context) {
+	router := route.NewEngine(config.NewOptions([]config.Option{}))
+	router.Use(SentinelServerMiddleware(opts...))
+	router.GET("/c19", func(_ context.Context, ctx *app.RequestContext) {
 		c.handlerCalled()
 		switch handler {
 		case "ok":
-			ctx.StatusCode(http.StatusOK)
-			_, _ = ctx.WriteString("ok")
+			ctx.String(http.StatusOK, "ok")
 		case "err":
-			ctx.StatusCode(http.StatusInternalServerError)
-			_, _ = ctx.WriteString("err")
+			_ = ctx.Error(c19ErrHandler)
+			ctx.String(http.StatusInternalServerError, "err")
 		case "panic":
 			panic("c19 handler panic")
 		}
 	})
-	if err := app.Build(); err != nil {
-		t.Fatalf("driver set-up: iris app.Build: %v", err)
-	}
+	code := 0
+	c.EscapedPanic = c19Guard(func() {
+		w := ut.PerformRequest(router, http.MethodGet, "/c19", nil)
+		code = w.Result().StatusCode()
+	})
+	c.Response = strconv.Itoa(code)
+	c.DefaultRejectionSeen = code == http.StatusTooManyRequests
+	c19Finish(t, c)
+}
 
-	w := httptest.NewRecorder()
-	r := httptest.NewRequest(http.MethodGet, "/c19", nil)
-	c.EscapedPanic = c19Guard(func() { app.ServeHTTP(w, r) })
-	c.Response = strconv.Itoa(w.Code)
-	c.DefaultRejectionSeen = w.Code == http.StatusTooManyRequests
+func c19HertzClientCase(t *testing.T, admitted, fallback bool, handler string) {
+	c := &c19Case{
+		Adapter:               "hertz",
+		EntryPoint:            "SentinelClientMiddleware",
+		Resource:              c19Name("SentinelClientMiddleware", admitted, fallback, handler),
+		AdmittedExpected:      admitted,
+		Fallback:              fallback,
+		Handler:               handler,
+		HandlerCanReturnError: true,
+		Notes:                 "middleware called directly; handler = the wrapped client.Endpoint",
+	}
+	c19Rules(t, c.Resource, admitted)
+
+	opts := []ClientOption{WithClientResourceExtractor(func(context.Context, *protocol.Request, *protocol.Response) string { return c.Resource })}
+	if fallback {
+		opts = append(opts, WithClientBlockFallback(func(context.Context, *protocol.Request, *protocol.Response, error) error {
+			c.fallbackCalled()
+			return c19ErrFallback
+		}))
+	}
+	h := SentinelClientMiddleware(opts...)(func(ctx context.Context, req *protocol.Request, resp *protocol.Response) error {
+		c.handlerCalled()
+		switch handler {
+		case "err":
+			return c19ErrHandler
+		case "panic":
+			panic("c19 handler panic")
+		}
+		resp.SetStatusCode(http.StatusOK)
+		return nil
+	})
+	req, resp := &protocol.Request{}, &protocol.Response{}
+	req.SetMethod(http.MethodGet)
+	req.SetRequestURI("http://localhost:19019/c19")
+	var err error
+	c.EscapedPanic = c19Guard(func() { err = h(context.Background(), req, resp) })
+	c.Response = c19ErrText(err)
+	c.DefaultRejectionSeen = c19IsBlockErr(err) && resp.StatusCode() == http.StatusTooManyRequests
 	c19Finish(t, c)
 }
